@@ -253,19 +253,21 @@ func c11SpecialRunes() []rune {
 	return rs
 }
 
-// U+FEFF is swept separately: Go rejects a byte order mark anywhere but at the start of a file
+// U+FEFF: both scanners write it as the escape \ufeff (Go rejects a raw byte order mark anywhere but at
+// the start of a file)
 const c11BOM = 0xFEFF
 
 func c11SweepRunes(thorough bool) []rune {
 	seen := map[rune]bool{}
 	var out []rune
 	add := func(r rune) {
-		if r >= 0xD800 && r <= 0xDFFF || r == c11BOM || r < 0x80 || r > 0x10FFFF || seen[r] {
+		if r >= 0xD800 && r <= 0xDFFF || r < 0x80 || r > 0x10FFFF || seen[r] {
 			return
 		}
 		seen[r] = true
 		out = append(out, r)
 	}
+	add(c11BOM)
 	for _, r := range c11SpecialRunes() {
 		add(r)
 	}
@@ -323,8 +325,19 @@ func c11SweepCases(c *Ctx) []*c11Case {
 			}
 			cases = append(cases, c11Mk(f, "sweep", ps))
 		}
-		// the byte order mark: hazard (Go: "illegal byte order mark" anywhere but at the start of a file)
-		cases = append(cases, c11Mk(f, "hazard-bom", []c11Piece{{"char", "a"}, {"char", string(rune(c11BOM))}, {"char", "b"}}))
+		// the byte order mark: alone, between letters, doubled, its first bytes alone, next to escapes / holes / %
+		bom := c11Piece{"char", string(rune(c11BOM))}
+		chp := func(x string) c11Piece { return c11Piece{"char", x} }
+		cases = append(cases, c11Mk(f, "bom", []c11Piece{bom}),
+			c11Mk(f, "bom", []c11Piece{chp("a"), bom, chp("b")}),
+			c11Mk(f, "bom", []c11Piece{bom, bom, chp("%"), bom}),
+			c11Mk(f, "bom", []c11Piece{chp("\u00ef"), bom, chp("\u00bb"), chp("\u00bf"), bom, chp("\ufefe")}))
+		if !c11IsRaw(f) {
+			cases = append(cases, c11Mk(f, "bom", []c11Piece{{"esc", "n"}, bom, {"esc", "\\"}, bom, {"esc", "\""}}))
+		}
+		if c11IsInterp(f) {
+			cases = append(cases, c11Mk(f, "bom", []c11Piece{{"hole", "a"}, bom, {"hole", "s"}, bom}))
+		}
 	}
 	return cases
 }
@@ -429,10 +442,10 @@ func c11Gen(c *Ctx, rng *Rng) []*c11Case {
 					case 1:
 						x = string(Choose(rng, special))
 					case 2:
-						x = string(Choose(rng, []rune{0x3000, 0x00A0, 0x2003, 0x200B, 0x2028, 0xFF01, 0xFF20, 0x0301, 0xFFFD}))
+						x = string(Choose(rng, []rune{0x3000, 0x00A0, 0x2003, 0x200B, 0x2028, 0xFF01, 0xFF20, 0x0301, 0xFFFD, c11BOM, c11BOM}))
 					default:
 						r := rune(0x80 + rng.Intn(0xFFFF-0x80))
-						if r >= 0xD800 && r <= 0xDFFF || r == c11BOM {
+						if r >= 0xD800 && r <= 0xDFFF {
 							r = 0x3042
 						}
 						x = string(r)
@@ -654,7 +667,7 @@ func runC11(c *Ctx) {
 		"all of U+0080..U+07FF, every 16th code point of the rest of the BMP (quick) or every BMP code point (thorough) without surrogates, a fixed list of " +
 		"space-like / invisible / easily normalised code points (U+00A0 U+00AD U+1680 U+2000..U+200F U+2028 U+2029 U+202F U+205F U+2060 U+3000 U+FFFD, combining marks " +
 		"U+0300..U+036F, variation selectors, full-width ASCII U+FF01..U+FF5E, ...), astral samples (U+1F300..U+1F64F every 8th, U+10000, U+10FFFF, tags U+E0020.. (quick); " +
-		"U+1F000..U+1FAFF, U+E0000..U+E01EF and every 257th astral code point (thorough)), U+FEFF as a hazard probe; every escape of the grammar alone and with neighbours, " +
+		"U+1F000..U+1FAFF, U+E0000..U+E01EF and every 257th astral code point (thorough)), U+FEFF alone / doubled / next to escapes and holes; every escape of the grammar alone and with neighbours, " +
 		"\\{ \\} and every hole variable (int, string with % { } \\ \", empty string, bool, []int, tuple, []string) in both interpolated forms, " +
 		"then random bodies of 0-53 pieces biased to % \\ \" { } ` ' newline tab and multi-byte characters; " +
 		"non-trivial = non-empty body; distinct by (form, body)"
@@ -700,19 +713,6 @@ func runC11(c *Ctx) {
 		}
 		if i%499 == 3 {
 			c.Sample(map[string]any{"literal": c11Open[k.Form] + k.Body() + c11Close[k.Form], "emitted": o.expr, "value": o.val})
-		}
-		if k.Kind == "hazard-bom" {
-			// a byte order mark inside a literal: fc copies it, Go rejects it anywhere but at the start of
-			// a file ("illegal byte order mark"); no emitted program can carry it, like NUL
-			if o.ok && !o.evalOK && strings.Contains(o.evalErr, "byte order mark") {
-				c.Known("C11-bom-inside-literal")
-				c.Count("hazard_bom_inside_literal_is_a_go_compile_error")
-				continue
-			}
-			if bad := c11Property(k, o); bad != "" {
-				c.Violate("prop", bad, map[string]any{"case": k, "source": k.source(true), "emitted": o.expr}, false)
-			}
-			continue
 		}
 		if k.Kind == "hazard-float" {
 			// "Go %v otherwise": a float hole is printed with %f by frt.toS (1.500000, not 1.5)
@@ -814,7 +814,7 @@ func c11Batches(c *Ctx, ks []*c11Case) {
 		var sel, other []*c11Case
 		for _, k := range ks {
 			switch k.Kind {
-			case "single", "escape", "brace", "hole", "empty", "brace-hole", "escape-brace", "hole-percent", "newline":
+			case "single", "escape", "brace", "hole", "empty", "brace-hole", "escape-brace", "hole-percent", "newline", "bom":
 				sel = append(sel, k)
 			case "random":
 				other = append(other, k)
